@@ -14,8 +14,8 @@ open Bptk.C06 (Store)
 interleaved history are those it gets when the requests of all other owners (including their creation, stop,
 timeout and lazy restoration) are never made. -/
 def C16_full (c : Cfg) : Prop :=
-  ∀ (k : Nat) (ad : Bool) (ops : List (Nat × Req)) (t : Option Nat),
-    respsOf t (resps c (Server.initAd k ad) ops) = respsOf t (resps c (Server.initAd k ad) (proj t ops))
+  ∀ (fac : Obj) (k : Nat) (ad : Bool) (ops : List (Nat × Req)) (t : Option Nat),
+    respsOf t (resps c (Server.initF fac k ad) ops) = respsOf t (resps c (Server.initF fac k ad) (proj t ops))
 
 def Req.noSetting : Req → Bool
   | .runStep st => st.isEmpty
@@ -25,26 +25,40 @@ def Req.noSetting : Req → Bool
 
 /-! ### nothing shared: the cell `g` is neither read nor written -/
 
-theorem writeMod_good (c : Cfg) (h : c.instancesShareNothing = true) (g m u : Store) :
+theorem writeMod_good (c : Cfg) (h : c.instancesShareNothing = true) (g : Proc) (m u : Store) :
     writeMod c g m u = (g, Store.update m u) := by
   simp [writeMod, h]
 
-theorem effOf_good (c : Cfg) (h : c.instancesShareNothing = true) (g m : Store) : effOf c g m = m := by
+theorem effOf_good (c : Cfg) (h : c.instancesShareNothing = true) (g : Proc) (m : Store) : effOf c g m = m := by
   simp [effOf, h]
 
 /-- settings that are empty write nothing, whatever is shared -/
-theorem writeMod_nil (c : Cfg) (g m : Store) : writeMod c g m [] = (g, m) := by
-  simp only [writeMod]; split <;> rfl
+theorem writeMod_nil (c : Cfg) (g : Proc) (m : Store) : writeMod c g m [] = (g, m) := by
+  simp only [writeMod]; split
+  · rfl
+  · split <;> rfl
 
-theorem objBegin_good (c : Cfg) (h : c.instancesShareNothing = true) (g g' : Store) (o : Obj) (st : Store) :
+theorem writeScn_good (c : Cfg) (h : c.instancesShareNothing = true) (g : Proc) (m u : Store) :
+    writeScn c g m u = (g, Store.update m u) := by
+  simp [writeScn, h]
+
+theorem readScn_good (c : Cfg) (h : c.instancesShareNothing = true) (g : Proc) (m : Store) : readScn c g m = m := by
+  simp [readScn, h]
+
+theorem writeScn_nil (c : Cfg) (g : Proc) (m : Store) : writeScn c g m [] = (g, m) := by
+  simp only [writeScn]; split
+  · rfl
+  · split <;> rfl
+
+theorem objBegin_good (c : Cfg) (h : c.instancesShareNothing = true) (g g' : Proc) (o : Obj) (st : Store) :
     objBegin c g o st = (g, (objBegin c g' o st).2) := by
-  simp [objBegin, writeMod_good c h]
+  simp [objBegin, writeScn_good c h]
 
-theorem objStep_good (c : Cfg) (h : c.instancesShareNothing = true) (g g' : Store) (o : Obj) (s : Sess) (st : Store) :
+theorem objStep_good (c : Cfg) (h : c.instancesShareNothing = true) (g g' : Proc) (o : Obj) (s : Sess) (st : Store) :
     objStep c g o s st = (g, (objStep c g' o s st).2) := by
-  simp [objStep, writeMod_good c h, effOf_good c h]
+  simp [objStep, writeMod_good c h, effOf_good c h, readScn_good c h]
 
-theorem replayFold_good (c : Cfg) (h : c.instancesShareNothing = true) (g g' : Store) :
+theorem replayFold_good (c : Cfg) (h : c.instancesShareNothing = true) (g g' : Proc) :
     ∀ (l : List Store) (m : Store) (a : List Store),
       l.foldl (replayStep c) (g, m, a) = (g, (l.foldl (replayStep c) (g', m, a)).2) := by
   intro l
@@ -55,12 +69,12 @@ theorem replayFold_good (c : Cfg) (h : c.instancesShareNothing = true) (g g' : S
       simp only [List.foldl_cons, replayStep, writeMod_good c h, effOf_good c h]
       exact ih _ _
 
-theorem replay_good (c : Cfg) (h : c.instancesShareNothing = true) (g g' : Store) (o : Obj) (s : Sess) :
+theorem replay_good (c : Cfg) (h : c.instancesShareNothing = true) (g g' : Proc) (o : Obj) (s : Sess) :
     replay c g o s = (g, (replay c g' o s).2) := by
-  simp only [replay, writeMod_good c h]
+  simp only [replay, writeScn_good c h, readScn_good c h]
   rw [replayFold_good c h g g']
 
-theorem revive_good (c : Cfg) (h : c.instancesShareNothing = true) (ad : Bool) (g g' : Store) (src : Obj) (x : Inst) :
+theorem revive_good (c : Cfg) (h : c.instancesShareNothing = true) (ad : Bool) (g g' : Proc) (src : Obj) (x : Inst) :
     revive c ad g src x = (g, (revive c ad g' src x).2) := by
   simp only [revive]
   split
@@ -72,12 +86,12 @@ theorem revive_good (c : Cfg) (h : c.instancesShareNothing = true) (ad : Bool) (
     · rfl
 
 /-- without an adapter nothing is ever restored -/
-theorem revive_noAd (c : Cfg) (g : Store) (src : Obj) (x : Inst) : revive c false g src x = (g, x, false) := by
+theorem revive_noAd (c : Cfg) (g : Proc) (src : Obj) (x : Inst) : revive c false g src x = (g, x, false) := by
   simp [revive]
 
 /-- with nothing shared, a request's response, the instance's next state and whether an object was taken do not
 depend on the process-wide cell, and the cell is not written. -/
-theorem stepInst_good (c : Cfg) (h : c.instancesShareNothing = true) (ad : Bool) (g g' : Store) (src : Obj) (x : Inst)
+theorem stepInst_good (c : Cfg) (h : c.instancesShareNothing = true) (ad : Bool) (g g' : Proc) (src : Obj) (x : Inst)
     (r : Req) : stepInst c ad g src x r = (g, (stepInst c ad g' src x r).2) := by
   have hr := revive_good c h ad g g' src x
   cases r <;> simp only [stepInst] <;> (try rfl)
@@ -95,28 +109,28 @@ theorem stepInst_good (c : Cfg) (h : c.instancesShareNothing = true) (ad : Bool)
   · split <;> rfl
   · split <;> rfl
 
-theorem stepInst_indep (c : Cfg) (h : c.instancesShareNothing = true) (ad : Bool) (g g' : Store) (src : Obj) (x : Inst)
+theorem stepInst_indep (c : Cfg) (h : c.instancesShareNothing = true) (ad : Bool) (g g' : Proc) (src : Obj) (x : Inst)
     (r : Req) : (stepInst c ad g src x r).2 = (stepInst c ad g' src x r).2 := by
   rw [stepInst_good c h ad g g']
 
-theorem stepInst_keeps_g (c : Cfg) (h : c.instancesShareNothing = true) (ad : Bool) (g : Store) (src : Obj) (x : Inst)
+theorem stepInst_keeps_g (c : Cfg) (h : c.instancesShareNothing = true) (ad : Bool) (g : Proc) (src : Obj) (x : Inst)
     (r : Req) : (stepInst c ad g src x r).1 = g := by
-  rw [stepInst_good c h ad g []]
+  rw [stepInst_good c h ad g ⟨[], []⟩]
 
-theorem stepOwn_good (c : Cfg) (h : c.instancesShareNothing = true) (g g' : Store) (o : Obj) (r : Req) :
+theorem stepOwn_good (c : Cfg) (h : c.instancesShareNothing = true) (g g' : Proc) (o : Obj) (r : Req) :
     stepOwn c g o r = (g, (stepOwn c g' o r).2) := by
-  cases r <;> simp [stepOwn, writeMod_good c h, effOf_good c h]
+  cases r <;> simp [stepOwn, writeScn_good c h, readScn_good c h, effOf_good c h]
 
-theorem stepOwn_indep (c : Cfg) (h : c.instancesShareNothing = true) (g g' : Store) (o : Obj) (r : Req) :
+theorem stepOwn_indep (c : Cfg) (h : c.instancesShareNothing = true) (g g' : Proc) (o : Obj) (r : Req) :
     (stepOwn c g o r).2 = (stepOwn c g' o r).2 := by
   rw [stepOwn_good c h g g']
 
-theorem stepOwn_keeps_g (c : Cfg) (h : c.instancesShareNothing = true) (g : Store) (o : Obj) (r : Req) :
+theorem stepOwn_keeps_g (c : Cfg) (h : c.instancesShareNothing = true) (g : Proc) (o : Obj) (r : Req) :
     (stepOwn c g o r).1 = g := by
-  rw [stepOwn_good c h g []]
+  rw [stepOwn_good c h g ⟨[], []⟩]
 
 /-- without an adapter, a request that carries no setting never writes the process-wide cell. -/
-theorem stepInst_g (c : Cfg) (g : Store) (src : Obj) (x : Inst) (r : Req) (h : r.noSetting = true) :
+theorem stepInst_g (c : Cfg) (g : Proc) (src : Obj) (x : Inst) (r : Req) (h : r.noSetting = true) :
     (stepInst c false g src x r).1 = g := by
   cases r with
   | runStep st =>
@@ -131,20 +145,20 @@ theorem stepInst_g (c : Cfg) (g : Store) (src : Obj) (x : Inst) (r : Req) (h : r
     simp only [Req.noSetting, List.isEmpty_iff] at h; subst h
     simp only [stepInst, revive_noAd]
     split
-    · simp [objBegin, writeMod_nil]
+    · simp [objBegin, writeScn_nil]
     · rfl
   | _ => simp only [stepInst, revive_noAd] <;> (try split) <;> rfl
 
-theorem stepOwn_g (c : Cfg) (g : Store) (o : Obj) (r : Req) (h : r.noSetting = true) : (stepOwn c g o r).1 = g := by
+theorem stepOwn_g (c : Cfg) (g : Proc) (o : Obj) (r : Req) (h : r.noSetting = true) : (stepOwn c g o r).1 = g := by
   cases r with
   | run st =>
     simp only [Req.noSetting, List.isEmpty_iff] at h; subst h
-    simp [stepOwn, writeMod_nil]
+    simp [stepOwn, writeScn_nil]
   | _ => rfl
 
 /-- **Freshness**: with `freshObjects`, whatever happened on the server before, the object the next started or
 restored instance gets is a new factory product — one no earlier instance has written to. -/
-theorem takeObj_fresh (c : Cfg) (h : c.freshObjects = true) (s : Server) : takeObj c s = Obj.fresh := by
+theorem takeObj_fresh (c : Cfg) (h : c.freshObjects = true) (s : Server) : takeObj c s = s.fac := by
   simp [takeObj, h]
 
 /-- with the good mechanism, or without an adapter, looking an id up touches nobody -/
@@ -169,6 +183,13 @@ theorem preRestore_id (c : Cfg) (s : Server) (op : Nat × Req) (h : c.restoreOnl
   unfold spareObj; split <;> rfl
 @[simp] theorem spareObj_own (c : Cfg) (s : Server) (x : Inst) (r : Req) : (spareObj c s x r).own = s.own := by
   unfold spareObj; split <;> rfl
+@[simp] theorem tookObj_fac (c : Cfg) (s : Server) : (tookObj c s).fac = s.fac := by
+  unfold tookObj; split; · rfl
+  split <;> rfl
+@[simp] theorem spareObj_fac (c : Cfg) (s : Server) (x : Inst) (r : Req) : (spareObj c s x r).fac = s.fac := by
+  unfold spareObj; split <;> rfl
+@[simp] theorem tookIf_fac (c : Cfg) (s : Server) (b : Bool) : (if b = true then tookObj c s else s).fac = s.fac := by
+  split <;> simp
 @[simp] theorem tookIf_ad (c : Cfg) (s : Server) (b : Bool) : (if b = true then tookObj c s else s).ad = s.ad := by
   split <;> simp
 @[simp] theorem tookIf_own (c : Cfg) (s : Server) (b : Bool) : (if b = true then tookObj c s else s).own = s.own := by
@@ -180,10 +201,24 @@ theorem stepNone_frame (c : Cfg) (s : Server) (i : Nat) (r : Req) :
   cases r <;> simp [stepNone, updFn]
   intro j hj; simp [hj]
 
+theorem stepNone_fac (c : Cfg) (s : Server) (i : Nat) (r : Req) : (stepNone c s i r).1.fac = s.fac := by
+  cases r <;> simp [stepNone]
+
 theorem stepNone_local (c : Cfg) (hF : c.freshObjects = true) (s s' : Server) (i : Nat) (r : Req)
-    (h : s.insts i = s'.insts i) :
+    (h : s.insts i = s'.insts i) (hfac : s.fac = s'.fac) :
     (stepNone c s i r).2 = (stepNone c s' i r).2 ∧ (stepNone c s i r).1.insts i = (stepNone c s' i r).1.insts i := by
-  cases r <;> simp [stepNone, updFn, h, takeObj_fresh c hF]
+  cases r <;> simp [stepNone, updFn, h, takeObj_fresh c hF, hfac]
+
+/-- the factory's output is a constant of the server -/
+theorem step_fac (c : Cfg) (s : Server) (op : Nat × Req) : (step c s op).1.fac = s.fac := by
+  unfold step
+  have hp : (preRestore c s op).fac = s.fac := by unfold preRestore; split <;> rfl
+  by_cases hs : op.2.serverLevel = true
+  · simp only [hs, if_true]
+  · simp only [hs, Bool.false_eq_true, if_false]
+    cases hx : (preRestore c s op).insts op.1 with
+    | none => simp only []; rw [stepNone_fac]; exact hp
+    | some x => simp [hp]
 
 /-- a request leaves every other owner's part of the server alone, and never changes whether an adapter exists -/
 theorem step_other (c : Cfg) (s : Server) (op : Nat × Req) (t : Option Nat) (h : owner op ≠ t)
@@ -223,7 +258,7 @@ server (plus the shared cell when something is shared). -/
 theorem step_local (c : Cfg) (s s' : Server) (op : Nat × Req)
     (hc : comp (owner op) s = comp (owner op) s') (had : s.ad = s'.ad)
     (hg : c.instancesShareNothing = true ∨ s.g = s'.g) (hR : c.restoreOnlyAddressed = true ∨ s.ad = false)
-    (hF : c.freshObjects = true) :
+    (hF : c.freshObjects = true) (hfac : s.fac = s'.fac) :
     (step c s op).2 = (step c s' op).2 ∧ comp (owner op) (step c s op).1 = comp (owner op) (step c s' op).1 ∧
     (c.instancesShareNothing = true ∨ (step c s op).1.g = (step c s' op).1.g) := by
   have hR' : c.restoreOnlyAddressed = true ∨ s'.ad = false := by rw [← had]; exact hR
@@ -247,7 +282,7 @@ theorem step_local (c : Cfg) (s s' : Server) (op : Nat × Req)
     cases hx : s.insts op.1 with
     | none =>
       simp only [Bool.false_eq_true, if_false]
-      have hl := stepNone_local c hF s s' op.1 op.2 hc
+      have hl := stepNone_local c hF s s' op.1 op.2 hc hfac
       have f := stepNone_frame c s op.1 op.2
       have f' := stepNone_frame c s' op.1 op.2
       refine ⟨hl.1, by simpa [comp] using hl.2, ?_⟩
@@ -256,9 +291,9 @@ theorem step_local (c : Cfg) (s s' : Server) (op : Nat × Req)
       · exact Or.inr (by rw [f.1, f'.1, hg])
     | some x =>
       simp only [Bool.false_eq_true, if_false]
-      rw [takeObj_fresh c hF s, takeObj_fresh c hF s']
+      rw [takeObj_fresh c hF s, takeObj_fresh c hF s', ← hfac]
       rcases hg with hg | hg
-      · have := stepInst_indep c hg s.ad s.g s'.g Obj.fresh x op.2
+      · have := stepInst_indep c hg s.ad s.g s'.g s.fac x op.2
         exact ⟨by rw [this], by simp [comp, updFn, this], Or.inl hg⟩
       · rw [hg]; exact ⟨rfl, by simp [comp, updFn], Or.inr rfl⟩
 
@@ -291,13 +326,13 @@ shared, on the shared cell) answer `t`'s requests alike, whatever is addressed t
 theorem proj_resps (c : Cfg) (hF : c.freshObjects = true) (t : Option Nat) (ops : List (Nat × Req))
     (hops : (c.instancesShareNothing = true ∧ c.restoreOnlyAddressed = true) ∨
       ∀ op ∈ ops, owner op ≠ t → op.2.noSetting = true) :
-    ∀ (s s' : Server), comp t s = comp t s' → s.ad = s'.ad →
+    ∀ (s s' : Server), comp t s = comp t s' → s.ad = s'.ad → s.fac = s'.fac →
       ((c.instancesShareNothing = true ∧ c.restoreOnlyAddressed = true) ∨ (s.g = s'.g ∧ s.ad = false)) →
       respsOf t (resps c s ops) = respsOf t (resps c s' (proj t ops)) := by
   induction ops with
-  | nil => intro s s' _ _ _; rfl
+  | nil => intro s s' _ _ _ _; rfl
   | cons op rest ih =>
-    intro s s' hi had hg
+    intro s s' hi had hfac hg
     have hR : c.restoreOnlyAddressed = true ∨ s.ad = false := by
       rcases hg with h | h
       · exact Or.inl h.2
@@ -318,14 +353,14 @@ theorem proj_resps (c : Cfg) (hF : c.freshObjects = true) (t : Option Nat) (ops 
         rcases hg with h | h
         · exact Or.inl h.1
         · exact Or.inr h.1
-      obtain ⟨h1, h2, h3⟩ := step_local c s s' op hi had hg' hR hF
+      obtain ⟨h1, h2, h3⟩ := step_local c s s' op hi had hg' hR hF hfac
       rw [h1]
       congr 1
       have a1 := (step_other c s op (some (op.1 + 1)) (by
         simp only [owner]; split <;> simp) hR).2
       have a2 := (step_other c s' op (some (op.1 + 1)) (by
         simp only [owner]; split <;> simp) hR').2
-      apply ih hrest _ _ h2 (by rw [a1, a2, had])
+      apply ih hrest _ _ h2 (by rw [a1, a2, had]) (by rw [step_fac, step_fac, hfac])
       rcases hg with h | h
       · exact Or.inl h
       · rcases h3 with h3 | h3
@@ -341,6 +376,7 @@ theorem proj_resps (c : Cfg) (hF : c.freshObjects = true) (t : Option Nat) (ops 
       apply ih hrest
       · rw [ho.1]; exact hi
       · rw [ho.2]; exact had
+      · rw [step_fac]; exact hfac
       · rcases hg with hg | hg
         · exact Or.inl hg
         · rcases hops with h | h
@@ -350,30 +386,31 @@ theorem proj_resps (c : Cfg) (hF : c.freshObjects = true) (t : Option Nat) (ops 
 
 theorem C16_full_of_good (c : Cfg) (h : c.instancesShareNothing = true) (hr : c.restoreOnlyAddressed = true)
     (hF : c.freshObjects = true) : C16_full c := by
-  intro k ad ops t
-  exact proj_resps c hF t ops (Or.inl ⟨h, hr⟩) _ _ rfl rfl (Or.inl ⟨h, hr⟩)
+  intro fac k ad ops t
+  exact proj_resps c hF t ops (Or.inl ⟨h, hr⟩) _ _ rfl rfl rfl (Or.inl ⟨h, hr⟩)
 
 /-- The responses carry what the numbers are a function of (time index, effective settings of every step of the
 live simulation; logged rows; the settings a run reads), so for ANY numeric simulator `Sim` the actual response
 values of an owner in an interleaving equal those of its own requests alone. -/
 theorem C16_values {R : Type} (Sim : Option Resp → R) (c : Cfg) (h : c.instancesShareNothing = true)
-    (hr : c.restoreOnlyAddressed = true) (hF : c.freshObjects = true) (k : Nat) (ad : Bool) (ops : List (Nat × Req))
-    (t : Option Nat) :
-    (respsOf t (resps c (Server.initAd k ad) ops)).map Sim =
-    (respsOf t (resps c (Server.initAd k ad) (proj t ops))).map Sim := by
-  rw [C16_full_of_good c h hr hF k ad ops t]
+    (hr : c.restoreOnlyAddressed = true) (hF : c.freshObjects = true) (fac : Obj) (k : Nat) (ad : Bool)
+    (ops : List (Nat × Req)) (t : Option Nat) :
+    (respsOf t (resps c (Server.initF fac k ad) ops)).map Sim =
+    (respsOf t (resps c (Server.initF fac k ad) (proj t ops))).map Sim := by
+  rw [C16_full_of_good c h hr hF fac k ad ops t]
 
 /-- a history that never addresses owner `t` leaves `t`'s part of the server and the adapter flag as they were -/
 theorem final_other (c : Cfg) (hr : c.restoreOnlyAddressed = true) (t : Option Nat) (pre : List (Nat × Req))
-    (hpre : ∀ op ∈ pre, owner op ≠ t) : ∀ s : Server, comp t (final c s pre) = comp t s ∧ (final c s pre).ad = s.ad := by
+    (hpre : ∀ op ∈ pre, owner op ≠ t) :
+    ∀ s : Server, comp t (final c s pre) = comp t s ∧ (final c s pre).ad = s.ad ∧ (final c s pre).fac = s.fac := by
   induction pre with
-  | nil => intro s; exact ⟨rfl, rfl⟩
+  | nil => intro s; exact ⟨rfl, rfl, rfl⟩
   | cons op rest ih =>
       intro s
       have ho := step_other c s op t (hpre op List.mem_cons_self) (Or.inl hr)
       have := ih (fun o h => hpre o (List.mem_cons_of_mem _ h)) (step c s op).1
       simp only [final]
-      exact ⟨by rw [this.1, ho.1], by rw [this.2, ho.2]⟩
+      exact ⟨by rw [this.1, ho.1], by rw [this.2.1, ho.2], by rw [this.2.2, step_fac]⟩
 
 /-- **Lifecycle isolation**: the responses of an instance are a function of the requests addressed to it since
 its creation (and of its externalised state, which only its own requests write) only.  Whatever happened on the
@@ -382,16 +419,17 @@ restorations, `/run`s of other owners, on a server with any number of initial in
 interleaved with its requests afterwards, instance `i` answers exactly as on a brand-new, otherwise empty server
 that receives only its own requests (the first of which is its `create`). -/
 theorem C16_lifecycle (c : Cfg) (h : c.instancesShareNothing = true) (hr : c.restoreOnlyAddressed = true)
-    (hF : c.freshObjects = true) (k : Nat) (ad : Bool) (pre ops : List (Nat × Req)) (i : Nat) (hk : k ≤ i)
+    (hF : c.freshObjects = true) (fac : Obj) (k : Nat) (ad : Bool) (pre ops : List (Nat × Req)) (i : Nat) (hk : k ≤ i)
     (hpre : ∀ op ∈ pre, owner op ≠ some i) :
-    respsOf (some i) (resps c (final c (Server.initAd k ad) pre) ops) =
-    respsOf (some i) (resps c (Server.initAd 0 ad) (proj (some i) ops)) := by
-  have hf := final_other c hr (some i) pre hpre (Server.initAd k ad)
-  apply proj_resps c hF (some i) ops (Or.inl ⟨h, hr⟩) _ _ _ _ (Or.inl ⟨h, hr⟩)
+    respsOf (some i) (resps c (final c (Server.initF fac k ad) pre) ops) =
+    respsOf (some i) (resps c (Server.initF fac 0 ad) (proj (some i) ops)) := by
+  have hf := final_other c hr (some i) pre hpre (Server.initF fac k ad)
+  apply proj_resps c hF (some i) ops (Or.inl ⟨h, hr⟩) _ _ _ _ _ (Or.inl ⟨h, hr⟩)
   · rw [hf.1]
     have : ¬ i < k := by omega
-    simp [comp, Server.initAd, this]
-  · rw [hf.2]; rfl
+    simp [comp, Server.initF, this]
+  · rw [hf.2.1]; rfl
+  · rw [hf.2.2]; rfl
 
 /-- Whatever the factory shares (no adapter configured, objects fresh): an owner is unaffected by everything
 addressed to the others that carries no setting — instances created, sessions begun and ended, steps without
@@ -399,7 +437,7 @@ settings, results, keep-alive, `/equations`, `/agents`, `/run` without settings,
 theorem C16_partial (c : Cfg) (hF : c.freshObjects = true) (k : Nat) (ops : List (Nat × Req)) (t : Option Nat)
     (h : ∀ op ∈ ops, owner op ≠ t → op.2.noSetting = true) :
     respsOf t (resps c (Server.init k) ops) = respsOf t (resps c (Server.init k) (proj t ops)) :=
-  proj_resps c hF t ops (Or.inr h) _ _ rfl rfl (Or.inr ⟨rfl, rfl⟩)
+  proj_resps c hF t ops (Or.inr h) _ _ rfl rfl rfl (Or.inr ⟨rfl, rfl⟩)
 
 /-- stop, timeout and creation are local (instance of `C16_partial`, stated on its own as in the property). -/
 theorem C16_stop_timeout_local (c : Cfg) (hF : c.freshObjects = true) (k : Nat) (ops : List (Nat × Req)) (t : Option Nat)
@@ -422,8 +460,8 @@ theorem C16_commute (c : Cfg) (h : c.instancesShareNothing = true) (hr : c.resto
   have R : ∀ s' : Server, c.restoreOnlyAddressed = true ∨ s'.ad = false := fun _ => Or.inl hr
   have ob := step_other c s b (owner a) (Ne.symm hab) (R _)
   have oa := step_other c s a (owner b) hab (R _)
-  have la := step_local c (step c s b).1 s a ob.1 ob.2 (Or.inl h) (R _) hF
-  have lb := step_local c (step c s a).1 s b oa.1 oa.2 (Or.inl h) (R _) hF
+  have la := step_local c (step c s b).1 s a ob.1 ob.2 (Or.inl h) (R _) hF (step_fac c s b)
+  have lb := step_local c (step c s a).1 s b oa.1 oa.2 (Or.inl h) (R _) hF (step_fac c s a)
   refine ⟨la.1, lb.1, ?_, ?_⟩
   · intro t
     by_cases ha : owner a = t
@@ -445,19 +483,41 @@ def noSt : Store := []
 
 /-- Negation witness for a factory whose products share a cell (the base model's points table): a points
 setting applied through instance 0 changes the step instance 1 returns. -/
-theorem C16_witness_shared (c : Cfg) (h : c.instancesShareNothing = false) : ¬ C16_full c := by
+theorem C16_witness_shared (c : Cfg) (h : c.instancesShareNothing = false) (hk : c.sharedIsScenarioDicts = false) :
+    ¬ C16_full c := by
   intro hf
-  have := hf 2 false [(0, .beginSession noSt), (1, .beginSession noSt), (0, .runStep [(2, 5)]), (1, .runStep noSt),
+  have := hf Obj.fresh 2 false [(0, .beginSession noSt), (1, .beginSession noSt), (0, .runStep [(2, 5)]), (1, .runStep noSt),
     (1, .runStep noSt)] (some 1)
-  obtain ⟨a, b, d⟩ := c; simp only at h; subst h
+  obtain ⟨a, b, d, e⟩ := c; simp only at h hk; subst h hk
   revert this; cases b <;> cases d <;> decide
 
 /-- same mechanism through the begin-session settings, an instance created during the history, and the
 server-level `/run`: its points settings reach the instance. -/
-theorem C16_witness_shared_run (c : Cfg) (h : c.instancesShareNothing = false) : ¬ C16_full c := by
+theorem C16_witness_shared_run (c : Cfg) (h : c.instancesShareNothing = false) (hk : c.sharedIsScenarioDicts = false) :
+    ¬ C16_full c := by
   intro hf
-  have := hf 0 true [(3, .create), (3, .beginSession [(2, 2)]), (0, .run [(2, 7)]), (3, .runStep noSt)] (some 3)
-  obtain ⟨a, b, d⟩ := c; simp only at h; subst h
+  have := hf Obj.fresh 0 true [(3, .create), (3, .beginSession [(2, 2)]), (0, .run [(2, 7)]), (3, .runStep noSt)] (some 3)
+  obtain ⟨a, b, d, e⟩ := c; simp only at h hk; subst h hk
+  revert this; cases b <;> cases d <;> decide
+
+/-- Negation witness for the OTHER thing factory products can share — state that survives across factory calls
+in the process: a process-wide cache hands the same mutable scenario dictionaries to two factory products
+(`sharedIsScenarioDicts`).  Instance 0 begins a session with a session-level setting `constant = 5`
+(`configure_settings` writes it into the shared dictionary); instance 1, which began its session before, sets up
+its simulation at its first step and applies `constant = 5`; alone it runs with the file's `constant = 1`.
+Step-level settings do not leak this way, session-level ones do — also into the server-level object (`/run`). -/
+theorem C16_witness_shared_cache (c : Cfg) (h : c.instancesShareNothing = false) (hk : c.sharedIsScenarioDicts = true) :
+    ¬ C16_full c := by
+  intro hf
+  have := hf Obj.fresh 2 false [(1, .beginSession noSt), (0, .beginSession [(0, 5)]), (1, .runStep noSt), (0, .run noSt)] (some 1)
+  obtain ⟨a, b, d, e⟩ := c; simp only at h hk; subst h hk
+  revert this; cases b <;> cases d <;> decide
+
+theorem C16_witness_shared_cache_run (c : Cfg) (h : c.instancesShareNothing = false) (hk : c.sharedIsScenarioDicts = true) :
+    ¬ C16_full c := by
+  intro hf
+  have := hf Obj.fresh 1 false [(0, .beginSession [(1, 7)]), (0, .run noSt)] none
+  obtain ⟨a, b, d, e⟩ := c; simp only at h hk; subst h hk
   revert this; cases b <;> cases d <;> decide
 
 /-- an instance with an externalised session (one step), then — not externalised — the session ended and a new one
@@ -475,15 +535,15 @@ on a server with adapter the late keep-alive for the stopped instance 0 rebuilds
 next step continues the OLD session (time 1, constant 1 instead of time 0, constant 5). -/
 theorem C16_witness_restore_all (c : Cfg) (h : c.restoreOnlyAddressed = false) : ¬ C16_full c := by
   intro hf
-  have := hf 2 true restoreOps (some 1)
-  obtain ⟨a, b, d⟩ := c; simp only at h; subst h
-  revert this; cases a <;> cases d <;> decide
+  have := hf Obj.fresh 2 true restoreOps (some 1)
+  obtain ⟨a, b, d, e⟩ := c; simp only at h; subst h
+  revert this; cases a <;> cases d <;> cases e <;> decide
 
 theorem C16_witness_restore_all_ghost (c : Cfg) (h : c.restoreOnlyAddressed = false) : ¬ C16_full c := by
   intro hf
-  have := hf 2 true restoreOpsGhost (some 1)
-  obtain ⟨a, b, d⟩ := c; simp only at h; subst h
-  revert this; cases a <;> cases d <;> decide
+  have := hf Obj.fresh 2 true restoreOpsGhost (some 1)
+  obtain ⟨a, b, d, e⟩ := c; simp only at h; subst h
+  revert this; cases a <;> cases d <;> cases e <;> decide
 
 /-- "A request to an absent id touches no other instance", stated on its own: with the good mechanism (or without
 adapter) a request addressed to an id that is not in memory — never existed, stopped, timed out — leaves every other
@@ -497,7 +557,7 @@ theorem C16_absent_touches_others (c : Cfg) (h : c.restoreOnlyAddressed = false)
     ∃ (s : Server) (op : Nat × Req) (t : Option Nat), absent s.insts op.1 = true ∧ owner op ≠ t ∧
       comp t (step c s op).1 ≠ comp t s := by
   refine ⟨final c (Server.initAd 2 true) (restoreOps.take 5), (0, .keepAlive), some 1, ?_, ?_, ?_⟩
-  all_goals (obtain ⟨a, b, d⟩ := c; simp only at h; subst h; cases a <;> cases d <;> decide)
+  all_goals (obtain ⟨a, b, d, e⟩ := c; simp only at h; subst h; cases a <;> cases d <;> cases e <;> decide)
 
 /-- instance 0 gets a session-level setting for `k2` (key 1: an element its scenario does not list) and a
 step-level one for `tbl2` (key 3), and is stopped; then instance 1 is started, begins a session and steps. -/
@@ -510,25 +570,25 @@ and session, but the settings written into its scenario (`k2 = 7`) and model (`t
 new instance's first step is computed under them. -/
 theorem C16_witness_recycled (c : Cfg) (h : c.freshObjects = false) : ¬ C16_full c := by
   intro hf
-  have := hf 1 false recycleOps (some 1)
-  obtain ⟨a, b, d⟩ := c; simp only at h; subst h
-  revert this; cases a <;> cases b <;> decide
+  have := hf Obj.fresh 1 false recycleOps (some 1)
+  obtain ⟨a, b, d, e⟩ := c; simp only at h; subst h
+  revert this; cases a <;> cases b <;> cases e <;> decide
 
 /-- … and the same object reaches an instance RESTORED from the adapter after a timeout (`_make_bptk` again). -/
 theorem C16_witness_recycled_restore (c : Cfg) (h : c.freshObjects = false) (hr : c.restoreOnlyAddressed = true) :
     ¬ C16_full c := by
   intro hf
-  have := hf 2 true [(1, .beginSession noSt), (1, .runStep noSt), (1, .expire), (0, .beginSession [(1, 7)]), (0, .runStep noSt),
+  have := hf Obj.fresh 2 true [(1, .beginSession noSt), (1, .runStep noSt), (1, .expire), (0, .beginSession [(1, 7)]), (0, .runStep noSt),
     (0, .stop), (1, .runStep noSt)] (some 1)
-  obtain ⟨a, b, d⟩ := c; simp only at h hr; subst h hr
-  revert this; cases a <;> decide
+  obtain ⟨a, b, d, e⟩ := c; simp only at h hr; subst h hr
+  revert this; cases a <;> cases e <;> decide
 
 /-- Non-vacuity: three instances plus one created during the history, an adapter, interleaved sessions with
 different settings (begin-session and run-step, constants and points, listed and unlisted elements), `/run` with a
 setting in between, a stop followed by a start, a timeout followed by the lazy restoration of the timed-out
 instance — instance 1's responses with their values. -/
 example :
-    respsOf (some 1) (resps ⟨true, true, true⟩ (Server.initAd 3 true)
+    respsOf (some 1) (resps ⟨true, true, true, false⟩ (Server.initAd 3 true)
       [(0, .beginSession noSt), (1, .beginSession [(1, 4)]), (0, .runStep [(0, 7)]), (1, .runStep [(2, 2)]), (2, .beginSession noSt),
        (2, .stop), (5, .create), (0, .run [(3, 9)]), (0, .runStep noSt), (1, .runStep noSt), (1, .expire), (5, .beginSession [(2, 3)]),
        (1, .results), (0, .keepAlive), (1, .runStep [(0, 6)]), (1, .endSession), (0, .equations)])
@@ -541,6 +601,15 @@ example :
        some .ended] := by
   decide
 
+/-- Non-vacuity over another factory output (scenario files with own constants, base constants and points): the
+server-level object and an instance started during the history, with the values they return. -/
+example :
+    let fac : Obj := { scn := [(0, 1), (1, 2), (2, 1)], mod := [], sess := none }
+    respsOf (some 4) (resps ⟨true, true, true, false⟩ (Server.initF fac 1 false)
+      [(0, .beginSession [(1, 7)]), (0, .run [(3, 2)]), (4, .create), (0, .runStep noSt), (4, .beginSession [(2, 6)]), (4, .runStep [(1, 3)])])
+    = [some .created, some .started, some (.stepped 0 [[(0, 1), (1, 3), (2, 6)]])] := by
+  decide
+
 #print axioms C16_full_of_good
 #print axioms C16_values
 #print axioms C16_lifecycle
@@ -550,6 +619,8 @@ example :
 #print axioms C16_commute
 #print axioms C16_witness_shared
 #print axioms C16_witness_shared_run
+#print axioms C16_witness_shared_cache
+#print axioms C16_witness_shared_cache_run
 #print axioms C16_witness_restore_all
 #print axioms C16_witness_restore_all_ghost
 #print axioms C16_absent_touches_nobody
